@@ -1,6 +1,9 @@
 import MidoProofs.SrcTie.Tracks
+import MidoProofs.SrcTie.MergedTrack
 #print axioms Mido.src_to_abstime
 #print axioms Mido.src_to_reltime
 #print axioms Mido.src_fix_end_of_track
 #print axioms Mido.src_sortByTime
 #print axioms Mido.src_merge_tracks
+#print axioms Mido.src_merged_track
+#print axioms Mido.src_merged_track_model
